@@ -58,20 +58,36 @@ def run(tier, replay=None):
                            res, "C13"):
             C.check_coverage(res, ["SetNF", "SetRE", "SetBad", "SetStd",
                                    "AddNoise", "Select", "RoundTrip",
-                                   "Misfit"], "SurveyNoise")
+                                   "Misfit", "SimMisfit"], "SurveyNoise")
         rep.cov["exhaustive"] = True
         r = C.run_tlc("SurveyNoise", "SurveyNoise_dev.cfg", timeout=600)
         C.tlc_must_run(r, "SurveyNoise_dev")
         rep.canary(bool(r.violated))
         if not r.violated:
             raise C.MachineryError("TLC did not find the halving deviation")
+        r = C.run_tlc("SurveyNoise", "SurveyNoise_dev_weights.cfg",
+                      timeout=900)
+        C.tlc_must_run(r, "SurveyNoise_dev_weights")
+        rep.canary(bool(r.violated))
+        if not r.violated:
+            raise C.MachineryError("TLC did not find the stale-weights "
+                                   "deviation")
         n = 400 if tier == "quick" else 8000
         behs, sres = G.simulate("SurveyNoise", "SurveyNoise_walk.cfg", n, 8,
                                 rng.randrange(10**6))
         rep.add_tlc(f"SurveyNoise simulate {n} behaviours depth 8", sres,
                     "simulation")
-        jobs = [([st for _, st in b[1:]], rng.randrange(10**6)) for b in behs
-                if len(b) > 1]
+        behw, wres = G.simulate("SurveyNoise", "SurveyNoise_walkw.cfg", n, 10,
+                                rng.randrange(10**6))
+        rep.add_tlc(f"SurveyNoise SpecW (life of one simulation) simulate "
+                    f"{n} behaviours depth 10", wres, "simulation")
+        jobs = [([st for _, st in b[1:]], rng.randrange(10**6))
+                for b in behs + behw if len(b) > 1]
+        nsm = sum(1 for steps, _ in jobs
+                  if sum(s["last"]["op"] == "sim_misfit" for s in steps) >= 2)
+        rep.cov["walks_with_two_sim_misfit"] = nsm
+        if nsm < 5:
+            raise C.MachineryError("walks do not exercise SimMisfit twice")
     with mp.get_context("fork").Pool(C.NCPU) as pool:
         results = pool.map(_replay, jobs, chunksize=4)
     seen = set()
